@@ -31,7 +31,7 @@ func sameList(a, b []string) bool {
 }
 
 func c11(run *ev.Run) int {
-	run.SetRule("cases = random multimaps (1..10 X-... keys plus up to 2 ordinary names with varied first letters such as Trace-Id, Tenant, Trailer-Extra, T, 1..4 printable-ASCII values, -Bin keys with base64 of random bytes, some keys shared between headers, trailers and error metadata) as request headers, response headers, response trailers and error metadata x 3 protocols x 4 kinds x {success with >=1 message, success with 0 messages, error before first message, error after messages (one in four inside a multi-error), unary/client-stream response whose message cannot be marshalled, bidi reply rejected by the client's own read limit} x HTTP/1.1 and HTTP/2 over real sockets; plus binary-header helper round trips over all byte strings up to length 2 (3 thorough) in padded and unpadded form; distinct by (config, scenario, key-overlap class); also: trailing metadata in peer-compressed terminators (0x03 / 0x81, gzip and a custom algorithm)")
+	run.SetRule("cases = random multimaps (1..10 X-... keys plus up to 2 ordinary names with varied first letters such as Trace-Id, Tenant, Trailer-Extra, T, 1..4 printable-ASCII values, -Bin keys with base64 of random bytes, some keys shared between headers, trailers and error metadata) as request headers, response headers, response trailers and error metadata x 3 protocols x 4 kinds x {success with >=1 message, success with 0 messages, error before first message, error after messages (one in four inside a multi-error), unary/client-stream response whose message cannot be marshalled, bidi reply rejected by the client's own read limit} x HTTP/1.1 and HTTP/2 over real sockets; plus binary-header helper round trips over all byte strings up to length 2 (3 thorough) in padded and unpadded form; distinct by (config, scenario, key-overlap class); also: trailing metadata in peer-compressed terminators (0x03 / 0x81, gzip and a custom algorithm); history: lower-case keys written straight into the maps of the shared handlers")
 	run.Assume("names starting with \"Trailer-\" are used for trailers only: the unary Connect protocol defines every response header with that prefix to be a trailer, so a header of that name cannot be told apart from one by design")
 	run.Assume("header names are valid and outside protocol-reserved prefixes; values are printable ASCII without leading/trailing blanks")
 	srv := svc.NewServer()
